@@ -36,7 +36,7 @@ def kani_unit(prop, unit, tier, seed, workdir):
         shutil.copy(lock, os.path.join(dst, "Cargo.lock"))
     # name -> {obligation, complete: bool, note, tier}; a harness marked tier "thorough" runs in that tier only
     harnesses = {h: i for h, i in unit["harnesses"].items() if i.get("tier", "quick") == "quick" or tier == "thorough"}
-    env = dict(os.environ, CARGO_NET_OFFLINE="true", CARGO_TARGET_DIR=os.path.join(vdrv.BUILD, "kani-target-" + unit["crate"]))
+    env = dict(os.environ, CARGO_NET_OFFLINE="true", CARGO_TARGET_DIR=os.path.join(vdrv.WORK, "kani-target-" + unit["crate"]))
     cmdk = ["cargo", "kani"] + unit.get("kani_args", [])
     for h in harnesses:
         cmdk += ["--harness", h]
